@@ -74,6 +74,9 @@ def containers(depth):
             pass
     for a, b in itertools.product(R, repeat=2):
         out += [(a, b), [a, b], {a: b}, frozenset([a, b])]
+    # one mutable object referenced twice as siblings (no cycle): marshal writes it twice
+    row, dd = [1, 2], {"k": 1}
+    out += [[row, row], (row, row), {"a": dd, "b": dd}, [[0] * 3] * 3, [dd, [dd]], {"p": row, "q": (row,)}]
     out += [(), [], {}, set(), frozenset(), {None: None}, tuple(range(255)), tuple(range(256)), list(range(300)), set(range(300)),
             dict((i, str(i)) for i in range(300)), tuple(["s"] * 256)]
     if depth >= 2:
